@@ -7,7 +7,7 @@ EXPLANATION = (
     "database flag (and the id slot equals the database id, which is what the hash starts from). [HASH-DEPS] in "
     "NMEA2000Message.add_data the hashed string depends exactly on {message id} + {raw_value of fields guarded by "
     "part_of_primary_key}, in field order, through hashlib (never builtin hash); hash is None when mapping is off. [HASH-ORDER] "
-    "add_data precedes apply_preferred_units in the decoder and neither writes raw_value or id. UNDECIDED: injectivity of the "
+    "add_data precedes apply_preferred_units in the decoder and neither writes raw_value or id. HASH-DEPS is decided by interpreting NMEA2000Message.add_data over abstract values with hashlib recorded: with mapping off the hash stays None; with it on the digest input is exactly the id followed, for the key fields in field order (including one whose raw value is absent), by a constant non-numeric separator and str(raw value) -- any spelling (concatenation, join, piecewise update). UNDECIDED: injectivity of the "
     "'_'-joined string and of MD5."
 )
 ASSUMPTIONS = ["CPython ast parser", "canboat.json is the oracle", "hashlib.md5 is deterministic across processes",
